@@ -1,10 +1,13 @@
 mod c11;
 mod c19;
 mod common;
+mod conc;
+mod conc_checks;
 mod model;
 mod rec;
 mod seq_checks;
 mod seq_level;
+mod sched;
 mod seqmc;
 
 fn usage() -> ! {
@@ -19,17 +22,33 @@ fn main() {
         usage();
     }
     let code = match args[1].as_str() {
-        "replay" => seq_checks::replay(&args[2]),
+        "replay" => {
+            let doc: serde_json::Value = std::fs::read_to_string(&args[2])
+                .ok()
+                .and_then(|t| serde_json::from_str(&t).ok())
+                .unwrap_or(serde_json::Value::Null);
+            match doc["replay"]["engine"].as_str() {
+                Some("sched") => conc_checks::replay(&doc),
+                _ => seq_checks::replay(&args[2]),
+            }
+        }
         p => {
             let tier = args[2].as_str();
             if tier != "quick" && tier != "thorough" {
                 usage();
             }
             match p {
-                "C01" | "C02" | "C04" | "C06" | "C07" | "C10" | "C11" | "C15" => {
+                "C15" => {
+                    let mut r = common::Report::new(p, tier, "model_checking");
+                    seq_checks::run_into(&mut r, p, tier, 0.5);
+                    conc_checks::run_into(&mut r, p, tier, 0.5);
+                    r.finish()
+                }
+                "C01" | "C02" | "C04" | "C06" | "C07" | "C10" | "C11" => {
                     seq_checks::run(p, tier)
                 }
                 "C19" => c19::run(tier),
+                "C03" | "C08" | "C12" | "C13" | "C14" => conc_checks::run(p, tier),
                 _ => {
                     eprintln!("unknown property {p}");
                     2
